@@ -10,43 +10,43 @@ Local Open Scope N_scope.
 Definition after_crash (lay : layout) (m : fs) (l : list fsop) (k : nat) : fs :=
   fst (apply_ops lay m (crash k l)).
 
-(* 1. whatever the crash point, every uid list on disk is a readable one that
-      respects its counter, and maildir keys stay unique *)
+(* the operations executed before the kill (all of the first k unless one
+   failed earlier) *)
+Definition executed (lay : layout) (m : fs) (l : list fsop) (k : nat) : list fsop :=
+  applied lay m (crash k l).
+
+Lemma crash_run lay m l k :
+  legal_ops_b lay m l = true ->
+  legal_run lay m (executed lay m l k) (after_crash lay m l k).
+Proof. intro H. apply legal_ops_b_applied. exact (legal_ops_b_crash _ _ _ _ H). Qed.
+
+Lemma executed_sub lay m l k o : In o (executed lay m l k) -> In o (crash k l).
+Proof. unfold executed. destruct (applied_prefix lay m (crash k l)) as [rest E].
+  intro H. rewrite E. apply in_or_app. left. exact H. Qed.
+
+(* 1. whatever the crash point, every uid list on disk is a completely
+      written, well-formed one that respects its counter, maildir keys stay
+      unique, delivered files keep recordable names *)
 Theorem crash_inv lay m l k :
   Inv m -> legal_ops_b lay m l = true -> Inv (after_crash lay m l k).
-Proof.
-  intros I H. destruct (legal_ops_b_crash lay m l k H) as [l' [R _]].
-  exact (run_inv _ _ _ _ I R).
-Qed.
+Proof. intros I H. exact (run_inv _ _ _ _ I (crash_run lay m l k H)). Qed.
 
 (* 2. a message served before the operations start is served after a kill at
-      any point with the same uid, validity, flags and content, unless one of
-      the executed operations renames or removes its own file *)
+      any point with the same uid, validity, flags and content (in its folder,
+      under the name the folder has by then), unless one of the executed
+      operations renames or removes its own file *)
 Theorem crash_serves lay m l k f v uid key fl c :
   legal_ops_b lay m l = true ->
   serves m f v uid key fl c -> ~ touched (crash k l) key ->
-  serves (after_crash lay m l k) f v uid key fl c.
+  serves (after_crash lay m l k) (moved_names lay (executed lay m l k) f) v uid key fl c.
 Proof.
-  intros H S T. destruct (legal_ops_b_crash lay m l k H) as [l' [R [Tl _]]].
-  apply (run_serves _ _ _ _ _ _ _ _ _ _ R); [|exact S].
-  intro T'. apply T. apply Tl. exact T'.
+  intros H S T. apply (run_serves _ _ _ _ _ _ _ _ _ _ (crash_run lay m l k H)); [|exact S].
+  intro T'. apply T. apply Exists_exists in T' as [o [Ho Ht]]. apply Exists_exists.
+  exists o. split; [exact (executed_sub _ _ _ _ _ Ho)|exact Ht].
 Qed.
 
 Lemma crash_crash (j k : nat) (l : list fsop) : (j <= k)%nat -> crash j (crash k l) = crash j l.
 Proof. unfold crash. intro H. rewrite firstn_firstn. f_equal. lia. Qed.
-
-Lemma legal_ops_b_app_prefix lay m l1 l2 :
-  legal_ops_b lay m (l1 ++ l2) = true -> legal_ops_b lay m l1 = true.
-Proof.
-  revert m. induction l1 as [|o l1 IH]; intros m H; [reflexivity|].
-  cbn [app legal_ops_b] in *. apply andb_true_iff in H as [H1 H2].
-  rewrite H1. cbn [andb]. destruct (apply_op lay m o); [exact (IH _ H2)|reflexivity].
-Qed.
-
-Lemma legal_ops_b_crash_b lay m l k :
-  legal_ops_b lay m l = true -> legal_ops_b lay m (crash k l) = true.
-Proof. intro H. apply (legal_ops_b_app_prefix lay m (crash k l) (skipn k l)).
-  unfold crash. rewrite firstn_skipn. exact H. Qed.
 
 Lemma apply_ops_app lay m l1 l2 :
   apply_ops lay m (l1 ++ l2) =
@@ -67,54 +67,45 @@ Proof.
 Qed.
 
 (* 3. uid discipline between any two crash points j <= k of the same run:
-      the folder keeps its UIDVALIDITY, the next-uid counter never decreases,
-      and a uid below the earlier counter names the key it named then *)
+      the folder (under its later name) keeps its UIDVALIDITY, the next-uid
+      counter never decreases, and a uid below the earlier counter names the
+      key it named then *)
 Theorem crash_uid_stable lay m l j k :
   legal_ops_b lay m l = true -> (j <= k)%nat ->
-  uid_stable (after_crash lay m l j) (after_crash lay m l k).
+  exists phi, uid_stable_via phi (after_crash lay m l j) (after_crash lay m l k)
+              /\ ((forall o, In o l -> forall a b, o <> ORenameDir a b) -> forall f, phi f = f).
 Proof.
   intros H Hjk. unfold after_crash.
+  assert (Es : crash k l = crash j l ++ skipn j (crash k l)).
+  { rewrite <- (crash_crash j k l Hjk). unfold crash. rewrite firstn_skipn. reflexivity. }
   destruct (apply_ops lay m (crash j l)) as [mj okj] eqn:Ej.
   destruct okj.
-  - (* the first j operations all ran: continue from there *)
-    assert (Es : crash k l = crash j l ++ skipn j (crash k l)).
-    { rewrite <- (crash_crash j k l Hjk). unfold crash. rewrite firstn_skipn. reflexivity. }
-    pose proof (legal_ops_b_crash_b lay m l k H) as Hk. rewrite Es in Hk.
+  - pose proof (legal_ops_b_crash lay m l k H) as Hk. rewrite Es in Hk.
     pose proof (legal_ops_b_suffix _ _ _ _ _ Hk Ej) as Hs.
     rewrite Es, apply_ops_app, Ej. cbn [fst].
-    destruct (legal_ops_b_crash lay mj (skipn j (crash k l)) (length (skipn j (crash k l))) Hs)
-      as [l' [R _]].
-    unfold crash in R. rewrite firstn_all in R.
-    exact (run_uid_stable _ _ _ _ R).
-  - (* an operation failed before j: nothing more is executed *)
-    assert (Ek : fst (apply_ops lay m (crash k l)) = mj).
-    { assert (Es : crash k l = crash j l ++ skipn j (crash k l)).
-      { rewrite <- (crash_crash j k l Hjk). unfold crash. rewrite firstn_skipn. reflexivity. }
-      rewrite Es, apply_ops_app, Ej. reflexivity. }
-    rewrite Ek. cbn [fst]. apply uid_stable_refl.
+    exists (moved_names lay (applied lay mj (skipn j (crash k l)))).
+    split; [exact (run_uid_stable _ _ _ _ (legal_ops_b_applied _ _ _ Hs))|].
+    intros Hno f.
+    assert (Hsub : forall o, In o (applied lay mj (skipn j (crash k l))) -> In o l).
+    { intros o Ho. destruct (applied_prefix lay mj (skipn j (crash k l))) as [rest E].
+      assert (In o (skipn j (crash k l))) by (rewrite E; apply in_or_app; left; exact Ho).
+      assert (In o (crash k l)).
+      { rewrite <- (firstn_skipn j (crash k l)). apply in_or_app. right. assumption. }
+      unfold crash in *. rewrite <- (firstn_skipn k l). apply in_or_app. left. assumption. }
+    revert f. induction (applied lay mj (skipn j (crash k l))) as [|o r IH]; intro f; [reflexivity|].
+    cbn [moved_names fold_left].
+    assert (E : moved_name lay o f = f).
+    { destruct o; try reflexivity. exfalso.
+      exact (Hno _ (Hsub _ (or_introl eq_refl)) _ _ eq_refl). }
+    rewrite E. apply IH. intros o' Ho'. apply Hsub. right. exact Ho'.
+  - exists (fun f => f). rewrite Es, apply_ops_app, Ej. cbn [fst].
+    split; [apply uid_stable_refl|reflexivity].
 Qed.
 
-(* 4. in particular a uid is never given to another message file *)
-Theorem crash_uid_one_key lay m l j k f u u' uid key key' :
-  Inv m -> legal_ops_b lay m l = true -> (j <= k)%nat ->
-  uidl_at (after_crash lay m l j) f u -> uidl_at (after_crash lay m l k) f u' ->
-  recorded u uid key -> recorded u' uid key' ->
-  key = key' /\ u_val u' = u_val u /\ u_next u <= u_next u' /\ uid < u_next u.
+Lemma recorded_same_uid u uid k k' :
+  NoDup (map r_uid (u_recs u)) -> recorded u uid k -> recorded u uid k' -> k = k'.
 Proof.
-  intros I H Hjk Hu Hu' Hr Hr'.
-  pose proof (crash_inv lay m l j I H) as Ij.
-  destruct (crash_uid_stable lay m l j k H Hjk f u Hu) as [u2 [Hu2 [Hv [Hn Ho]]]].
-  assert (u2 = u').
-  { destruct Hu2 as [t [H1 H2]]. destruct Hu' as [t' [H1' H2']]. congruence. }
-  subst u2.
-  destruct Ij as [I1 _]. destruct Hu as [t [Hl Hp]].
-  destruct (I1 f _ Hl) as [t0 [u0 [Et [Hp0 [Hnd Hlt]]]]].
-  injection Et as <-. rewrite Hp in Hp0. injection Hp0 as <-.
-  assert (Hlt' : uid < u_next u).
-  { destruct Hr as [r [Hin [<- _]]]. exact (Hlt r Hin). }
-  split; [|repeat split; assumption].
-  specialize (Ho uid key' Hr' Hlt').
-  destruct Hr as [r [Hin [Hu1 Hk1]]]. destruct Ho as [r' [Hin' [Hu1' Hk1']]].
+  intros Hnd [r [Hin [Hu1 Hk1]]] [r' [Hin' [Hu1' Hk1']]].
   assert (r = r').
   { clear - Hnd Hin Hin' Hu1 Hu1'. revert Hnd Hin Hin'. generalize (u_recs u).
     induction l as [|x l IH]; cbn [map In]; intros Hnd Hin Hin'; [contradiction|].
@@ -127,9 +118,37 @@ Proof.
   subst r'. congruence.
 Qed.
 
-(* 5. a message being moved is, after a kill at any point of the MOVE, in the
-      source or in the destination: the file itself is in exactly one of the
-      two folders (its rename is one atomic operation) *)
+Lemma inv_uidl_at m f u : Inv m -> uidl_at m f u -> uids_ok u /\ wf_uidl u = true.
+Proof.
+  intros [I1 _ _ _] [t [Hl Hp]]. destruct (I1 f _ Hl) as [u0 [Et [Hw Hok]]].
+  injection Et as ->. rewrite (uidl_roundtrip _ Hw) in Hp. injection Hp as <-. split; assumption.
+Qed.
+
+(* 4. in particular a uid is never given to another message file *)
+Theorem crash_uid_one_key lay m l j k :
+  Inv m -> legal_ops_b lay m l = true -> (j <= k)%nat ->
+  exists phi, ((forall o, In o l -> forall a b, o <> ORenameDir a b) -> forall f, phi f = f) /\
+  forall f u u' uid key key',
+  uidl_at (after_crash lay m l j) f u -> uidl_at (after_crash lay m l k) (phi f) u' ->
+  recorded u uid key -> recorded u' uid key' ->
+  key = key' /\ u_val u' = u_val u /\ u_next u <= u_next u' /\ uid < u_next u.
+Proof.
+  intros I H Hjk. destruct (crash_uid_stable lay m l j k H Hjk) as [phi [S Hid]].
+  exists phi. split; [exact Hid|]. intros f u u' uid key key' Hu Hu' Hr Hr'.
+  destruct (inv_uidl_at _ _ _ (crash_inv lay m l j I H) Hu) as [[Hnd Hlt] _].
+  destruct (S f u Hu) as [u2 [Hu2 [Hv [Hn Ho]]]].
+  assert (u2 = u').
+  { destruct Hu2 as [t [H1 H2]]. destruct Hu' as [t' [H1' H2']]. congruence. }
+  subst u2.
+  assert (Hlt' : uid < u_next u).
+  { destruct Hr as [r [Hin [<- _]]]. exact (Hlt r Hin). }
+  split; [|repeat split; assumption].
+  exact (recorded_same_uid _ _ _ _ Hnd Hr (Ho uid key' Hr' Hlt')).
+Qed.
+
+(* 5. a message being moved is, after a kill at any point, in the source or in
+      the destination: the file of a message that no executed operation unlinks
+      exists in some folder (its rename is one atomic operation) *)
 Theorem move_file_conserved lay m l k key :
   Inv m -> legal_ops_b lay m l = true ->
   (exists f i c, file_at m f key i c) ->
@@ -137,26 +156,26 @@ Theorem move_file_conserved lay m l k key :
   exists f i c, file_at (after_crash lay m l k) f key i c.
 Proof.
   intros I H E Hno.
-  destruct (legal_ops_b_crash lay m l k H) as [l' [R [_ [rest Er]]]].
-  assert (Hno' : forall o, In o l' -> forall s f i, o <> OUnlink (PMsg f s key i) \/ live s = false).
-  { intros o Ho. apply Hno.
-    assert (Hin : In o (crash k l)) by (rewrite Er; apply in_or_app; left; exact Ho).
+  pose proof (crash_run lay m l k H) as R.
+  assert (Hno' : forall o, In o (executed lay m l k) ->
+                 forall s f i, o <> OUnlink (PMsg f s key i) \/ live s = false).
+  { intros o Ho. apply Hno. pose proof (executed_sub _ _ _ _ _ Ho) as Hin.
     unfold crash in Hin. rewrite <- (firstn_skipn k l). apply in_or_app. left. exact Hin. }
-  clear Hno Er H. unfold after_crash.
-  induction R as [|m o m1 l' m2 L A R IH]; [exact E|].
+  clear Hno H. revert I E Hno'.
+  induction R as [|m o m1 l' m2 L A R IH]; intros I E Hno'; [exact E|].
   apply IH.
   - exact (legal_step_inv _ _ _ _ I L A).
   - destruct E as [f [i [c [s [Hs Hl]]]]].
     assert (LP : live_path (PMsg f s key i)) by (exists f, s, key, i; split; [reflexivity|exact Hs]).
-    destruct (legal_live _ _ _ _ L A) as [F|[HL|[HR|HU]]].
+    destruct (legal_live _ _ _ _ L A) as [[_ F]|[HL|[HR|[HU|HD]]]].
     + exists f, i, c, s. split; [exact Hs|]. rewrite (F _ LP). exact Hl.
-    + destruct HL as (src & dst & c0 & -> & (g & t & k0 & j & -> & Ht0) & Hk & Hl').
+    + destruct HL as (src & dst & c0 & -> & (g & t & k0 & j & -> & Ht0) & Hk & _ & _ & Hl').
       exists f, i, c, s. split; [exact Hs|]. rewrite Hl'.
       destruct (path_eqb (PMsg g t k0 j) (PMsg f s key i)) eqn:E1; [|exact Hl].
       apply path_eqb_eq in E1. inversion E1; subst. cbn [key_of] in Hk.
       rewrite (Hk _ _ _ Hs) in Hl. discriminate.
     + destruct HR as (src & dst & c0 & -> & (g & t & k0 & j & -> & Ht0)
-                      & (g' & t' & k1 & j' & -> & Ht1) & Hkk & Hc & Hl').
+                      & (g' & t' & k1 & j' & -> & Ht1) & Hkk & Hc & _ & Hl').
       cbn [key_of] in Hkk. subst k1.
       destruct (path_eqb (PMsg g t k0 j) (PMsg f s key i)) eqn:E1.
       * apply path_eqb_eq in E1. inversion E1; subst.
@@ -165,7 +184,7 @@ Proof.
       * exists f, i, c, s. split; [exact Hs|]. rewrite Hl', E1.
         destruct (path_eqb (PMsg g' t' k0 j') (PMsg f s key i)) eqn:E2; [|exact Hl].
         apply path_eqb_eq in E2. inversion E2; subst.
-        destruct I as [_ I2].
+        destruct I as [_ I2 _ _].
         destruct (I2 _ _ _ _ _ _ _ _ _ Ht0 Hs Hc Hl) as [-> [-> ->]].
         rewrite path_eqb_refl in E1. discriminate.
     + destruct HU as (p & -> & (g & t & k0 & j & -> & Ht0) & Hl').
@@ -173,6 +192,9 @@ Proof.
       destruct (path_eqb (PMsg g t k0 j) (PMsg f s key i)) eqn:E1; [|exact Hl].
       apply path_eqb_eq in E1. inversion E1; subst.
       destruct (Hno' _ (or_introl eq_refl) s f i) as [Hx|Hx]; [contradiction|congruence].
+    + destruct HD as (a & b & -> & Rk).
+      exists (moved_name lay (ORenameDir a b) f), i, c, s. split; [exact Hs|].
+      rewrite <- move_path_msg. exact (renamedir_forward _ _ _ _ _ _ _ Rk A Hl).
   - intros o0 Ho0. apply Hno'. right. exact Ho0.
 Qed.
 
@@ -183,7 +205,7 @@ Theorem move_file_once lay m l k key f i c f' i' c' :
   f = f' /\ i = i' /\ c = c'.
 Proof.
   intros I H [s [Hs Hl]] [s' [Hs' Hl']].
-  destruct (crash_inv lay m l k I H) as [_ I2].
+  destruct (crash_inv lay m l k I H) as [_ I2 _ _].
   destruct (I2 _ _ _ _ _ _ _ _ _ Hs Hs' Hl Hl') as [-> [-> ->]].
   repeat split. congruence.
 Qed.
@@ -191,8 +213,8 @@ Qed.
 (* ------------------------------------------------------------ witnesses *)
 (* the example store satisfies the invariant, and its whole operation list is
    legal: the hypotheses of the theorems above are satisfiable *)
-Lemma lookup_In m p n : lookup m p = Some n -> In (p, n) m.
-Proof. exact (LegalProofs.lookup_In m p n). Qed.
+Example ex_inv : inv_b ex_fs0 = true /\ length ex_ops = 34%nat.
+Proof. split; vm_compute; reflexivity. Qed.
 
 Example ex_legal : legal_ops_b LPlus ex_fs0 ex_ops = true /\ length ex_ops = 34%nat.
 Proof. split; vm_compute; reflexivity. Qed.
